@@ -23,7 +23,6 @@ import (
 	"encoding/hex"
 	"fmt"
 	"math/big"
-	"os"
 	"sort"
 	"strings"
 	"sync"
@@ -550,11 +549,6 @@ func TestVerifC14(t *testing.T) {
 	bfsCfgs := []bfsCfg{
 		{"full", c14FullAlphabet(), c14MaxStash, r.Pick(4, 5)},
 		{"reduced", c14ReducedAlphabet(2), 2, r.Pick(8, 40)}, // fixpoint at depth 23
-	}
-	if v := os.Getenv("C14_ONLY_REDUCED_DEPTH"); v != "" { // development knob
-		var d int
-		fmt.Sscan(v, &d)
-		bfsCfgs = []bfsCfg{{"reduced", c14ReducedAlphabet(2), 2, d}}
 	}
 	statesA := 0
 	allDepthsDone := true
